@@ -58,6 +58,8 @@ package snapshot
 //@   let valSame = arrayOf(kv.Value) == ghost_vArr && offsetOf(kv.Value) == ghost_vOff && uint64(len(kv.Value)) == ghost_vLen
 //@   let tsSame = kv.TimestampNano == ghost_ts0
 //@   let flSame = uint64(kv.Flags) == ghost_fl0
+//@   at_call fmt.Errorf#0 assert rejects_only_a_truncated_payload: pval > uint64(len(data) - (p + plen))
+//@   at_call fmt.Errorf#1 assert rejects_only_a_truncated_fixed64: len(data) - p < 8
 //@   loop 0 step tag_is_a_varint: varintOK(data[fstart:])
 //@   loop 0 step key_is_field_1: fnum == 1 ==> wt == 2 && varintOK(data[p:]) && sameSlice(kv.Key, data[p+plen:p+plen+int(pval)]) && offset == p+plen+int(pval) && valSame && tsSame && flSame
 //@   loop 0 step value_is_field_2: fnum == 2 ==> wt == 2 && varintOK(data[p:]) && sameSlice(kv.Value, data[p+plen:p+plen+int(pval)]) && offset == p+plen+int(pval) && keySame && tsSame && flSame
@@ -95,6 +97,7 @@ package snapshot
 //@   let q = qstart + varintLen(d.data[qstart:])
 //@   let qlen = varintLen(d.data[q:])
 //@   let qval = varintVal(d.data[q:])
+//@   at_call fmt.Errorf#0 assert rejects_only_a_truncated_entry: qval > uint64(len(d.data) - (q + qlen))
 //@   at_call snapshot.(*KV).Unmarshal#0 assert entry_payload: qtagv >> 3 == 2 && qtagv & 7 == 2 && varintOK(d.data[q:]) && sameSlice(arg1, d.data[q+qlen:q+qlen+int(qval)]) && d.cur == q+qlen+int(qval)
 
 // indexData against the schema: name = 1 and transform = 4 are length
@@ -123,6 +126,7 @@ package snapshot
 //@   let nameSame = arrayOf(d.name) == ghost_nArr && offsetOf(d.name) == ghost_nOff && uint64(len(d.name)) == ghost_nLen
 //@   let transformSame = arrayOf(d.transform) == ghost_tArr && offsetOf(d.transform) == ghost_tOff && uint64(len(d.transform)) == ghost_tLen
 //@   let flagsSame = d.flags == ghost_fl0
+//@   at_call fmt.Errorf#0 assert rejects_only_a_truncated_payload: pval > uint64(len(data) - (p + plen))
 //@   loop 0 step tag_is_a_varint: varintOK(data[fstart:])
 //@   loop 0 step name_is_field_1: fnum == 1 ==> wt == 2 && varintOK(data[p:]) && seqEq(d.name, data[p+plen:p+plen+int(pval)]) && offset == p+plen+int(pval) && transformSame && flagsSame
 //@   loop 0 step entries_is_field_2: fnum == 2 ==> wt == 2 && varintOK(data[p:]) && offset == p+plen+int(pval) && nameSame && transformSame && flagsSame
